@@ -2,8 +2,10 @@
 import random
 import vlib
 from checks import proto_common as pc
+from checks import c09_gen
 
-THEOREMS = "C09_dispatch_none, C09_dispatch_in, C09_dispatch_out, C09_dispatch_inout, C09_async_equiv (props/C09.v)"
+THEOREMS = ("C09_dispatch_none, C09_dispatch_in, C09_dispatch_out, C09_dispatch_inout, C09_async_equiv, C09_unit_iff_no_fields, "
+            "C09_generated_dispatch, C09_transferred_sizes, C09_ref_takes_target_shape (props/C09.v)")
 RULE = ("exhaustive at the bound: four command shapes x every input size and output size in {1,7,8,9,12,16,24,64,128} "
         "bits (81 combinations for in+out) x interface Ok / Err x dispatch and dispatch_async with 0,1,2 Pendings x "
         "closure xor/overwrite (pattern exact, short, long) x bytes stored by the interface into the output buffer "
@@ -19,9 +21,12 @@ def run(ctx):
     reps = 1 if ctx.tier == "quick" else 6
     lines = pc.cmd_cases(rng, reps)
     stats, diffs, err = pc.correspondence(ctx, lines, "C")
+    gen = c09_gen.run_gen_phase(ctx)
     pc.report(ctx, info, stats, diffs, err, "C09", THEOREMS, RULE % reps,
               "command.rs disagrees with the proven dispatch model (arguments of dispatch_command or the value returned)",
-              extra_assumptions=["not covered here: the generator choosing () exactly for an empty field list (C09_unit_iff_no_fields)"])
+              extra_assumptions=["generator clause: CmdShape.v is a hand transcription of get_method's command arm and generate_method's `()` choice, "
+                                 "tied to the real generator by the generator phase (token-stream facts + compiled accessors on a recording interface)"],
+              extra_coverage={"generator_phase": gen})
 
 
 def replay(ctx, path):
